@@ -658,7 +658,7 @@ func init() {
 		RealStub: map[string]string{"abi / verify / validate / pcs / rtmr entry points": "real", "guest device, wire, PCS, CA, firmware log": "stub (faulty)", "go-eventlog parser": "real (trusted base)"},
 		Runs: func(tier string) int {
 			if tier == "thorough" {
-				return 6 * 40
+				return 6 * 100
 			}
 			return 36
 		},
